@@ -158,7 +158,11 @@ def install(ex):
                 I.throw("ValueError", "invalid literal for int()")
             return SInt(val(v.z))
         if isinstance(v, SReal):
-            _undecided("int(float)")
+            # int() truncates towards zero (finite floats assumed: time stamps)
+            r = I.fresh("trunc", Z)
+            rr = z3.ToReal(r)
+            I.assume(z3.If(v.z >= 0, z3.And(rr <= v.z, v.z < rr + 1), z3.And(rr >= v.z, v.z > rr - 1)))
+            return SInt(r)
         if v is None:
             I.throw("TypeError", "int() argument must be a string or a number, not NoneType")
         _undecided(f"int({v!r}, {base!r})")
@@ -399,6 +403,16 @@ def install(ex):
                 return False
             raise
     reg("builtins.hasattr", b_hasattr)
+
+    def b_type(I, v):
+        k = kind_of(v)
+        tok = M.get("builtins." + k)
+        if isinstance(tok, TypeToken):
+            return tok
+        if isinstance(v, PObj):
+            return v.cls if isinstance(v.cls, ClassRef) else PObj("type:" + v.clsname())
+        _undecided(f"type({v!r})")
+    reg("builtins.type", b_type)
 
     def b_callable(I, v):
         return isinstance(v, (Closure, Model, BoundMethod, ClassRef))
